@@ -770,3 +770,42 @@ Theorem sync_runner s :
   sync_run_user (fired_stage s) = direct_run_user s
   /\ sync_run_user (match s with inl v => StReturn v | inr e => StRaise e end) = direct_run_user s.
 Proof. split; [apply sync_fired | apply sync_direct]. Qed.
+
+(* ---- the runner raises DeferredNotFired for a Deferred without a result, and for nothing else:
+   in particular not for a fired Deferred whose failure is a DeferredNotFired ---- *)
+Lemma extract_result_idle d lg : idle d ->
+  extract_result d lg = (Raised XNotFired, with_cb (CConst 0, CConst 0) d, lg).
+Proof.
+  intro I. unfold extract_result. rewrite (add_callbacks_idle _ _ _ I).
+  assert (C : (if runnable d then d_result d else None) = None).
+  { destruct I as [H|H]; [rewrite H; reflexivity|]. destruct (runnable d); [exact H|reflexivity]. }
+  rewrite C. reflexivity.
+Qed.
+
+Definition stage_good (st : stage) : Prop := match st with StDeferred d => good d | _ => True end.
+
+Lemma sync_idle d : idle d -> sync_run_user (StDeferred d) = URaised XNotFired.
+Proof.
+  intro I. unfold sync_run_user. rewrite (add_callbacks_idle _ _ _ I).
+  rewrite (extract_result_idle _ _ (idle_with_cb _ d I)). reflexivity.
+Qed.
+
+Lemma sync_ready x : sync_run_user (StDeferred (ready x)) =
+  match x with RVal v => URet v | RErr e => UCaught e end.
+Proof. destruct x; reflexivity. Qed.
+
+Theorem sync_notfired_only st : stage_good st ->
+  (forall x, sync_run_user st = URaised x -> x = XNotFired /\ exists d, st = StDeferred d /\ idle d)
+  /\ (forall d, st = StDeferred d -> idle d -> sync_run_user st = URaised XNotFired)
+  /\ (forall e, st = StRaise e \/ st = StDeferred (ready (RErr e)) -> sync_run_user st = UCaught e).
+Proof.
+  intro G. split; [|split].
+  - intros x H. destruct st as [v|e|d].
+    + rewrite (sync_direct (inl v)) in H. discriminate.
+    + rewrite (sync_direct (inr e)) in H. discriminate.
+    + simpl in G. destruct (good_cases d G) as [I|[y ->]].
+      * rewrite (sync_idle d I) in H. injection H as <-. split; [reflexivity|]. eauto.
+      * rewrite sync_ready in H. destruct y; discriminate.
+  - intros d -> I. apply sync_idle, I.
+  - intros e [-> | ->]; [apply (sync_direct (inr e)) | apply (sync_ready (RErr e))].
+Qed.
